@@ -32,6 +32,11 @@ type c19Case struct {
 	// decode) or "closed-stream" (genuine frames of a stream that has been closed). They are upload
 	// bytes of the limited user all the same.
 	Flood string `json:"flood,omitempty"`
+	// Unordered: datagram-mode sessions (the limiter is the same switchboard code path, the stream
+	// layer is not). Storm: many short streams, each closed by the server right after a few bytes -
+	// closing notices are bytes sent to the user like any others.
+	Unordered bool `json:"unordered,omitempty"`
+	Storm     bool `json:"close_storm,omitempty"`
 }
 
 type c19Ev struct {
@@ -82,7 +87,7 @@ func c19Run(t *testing.T, r *vk.Reporter, id string, c *c19Case) (kind, detail s
 			return seedRng.Uint64()
 		}
 		for s := 0; s < c.Sessions; s++ {
-			cfg := rigCfg{Method: c.Method, NumConn: c.Conns, Seg: "all", SrvValve: valve, Inactivity: 100 * time.Hour}
+			cfg := rigCfg{Method: c.Method, NumConn: c.Conns, Seg: "all", SrvValve: valve, Inactivity: 100 * time.Hour, Unordered: c.Unordered}
 			g := newRigA(cfg, rng)
 			g.net.KeepReads = true
 			for i := 0; i < g.nconn(); i++ {
@@ -112,6 +117,10 @@ func c19Run(t *testing.T, r *vk.Reporter, id string, c *c19Case) (kind, detail s
 								if sz > left {
 									sz = left
 								}
+								if c.Unordered {
+									// a datagram source sends on its own schedule: about 3 x rate over all writers
+									time.Sleep(time.Duration(float64(sz) * float64(c.Sessions*c.Streams) / (3 * float64(c.Rate)) * float64(time.Second)))
+								}
 								if _, err := conn.Write(make([]byte, sz)); err != nil {
 									// the session died under this writer (in plain mode undecodable bytes can
 									// close a session); the tokens it had reserved for this record are gone
@@ -121,6 +130,9 @@ func c19Run(t *testing.T, r *vk.Reporter, id string, c *c19Case) (kind, detail s
 									return
 								}
 								left -= sz
+							}
+							if c.Storm {
+								conn.Close() // the closing notice waits for tokens like any other message
 							}
 							mu.Lock()
 							txSpans = append(txSpans, [2]time.Duration{t0, time.Since(start)})
@@ -362,6 +374,22 @@ func TestVerif_C19(t *testing.T) {
 			c.Rate = []int64{6000, 9000, 12000}[(i/12)%3]
 			c.Sizes = [][]int{{100}, {1, 100}, {500}}[(i/12)%3]
 			c.Volume = int(c.Rate) * 12 / (c.Sessions * c.Streams)
+		}
+		if i%12 == 2 {
+			// close storm: 100-250 short-lived streams of a slow user, each closed by the server
+			c.Storm, c.Dir, c.IdleGap, c.Flood = true, "tx", false, ""
+			c.Rate = []int64{6000, 20000, 65536}[(i/12)%3]
+			c.Sessions, c.Streams = 1+(i/12)%2, 100+rng.IntN(150)
+			c.Sizes, c.Volume = []int{1, 100}, 40
+		}
+		if i%12 == 8 && c.Flood == "" {
+			// datagram sessions of a slow user; the senders offer about three times the rate, paced in
+			// (virtual) time, for about eight seconds
+			c.Unordered = true
+			c.Rate = []int64{20000, 65536, 9000}[(i/12)%3]
+			c.Sizes = [][]int{{100}, {1400}, {500, 1400}, {1000}}[(i/12)%4]
+			c.Volume = int(c.Rate) * 8 / (c.Sessions * c.Streams)
+			c.IdleGap = false
 		}
 		if i%12 == 11 {
 			c.Rate = 4000 // below the size of one message: the documented literal excess (known finding)
